@@ -77,7 +77,7 @@ PROPS = {
     },
     "C14": {
         "rule": "texts: grammar-complete generated scripts in two layouts (valid by construction: must be accepted) and, for four in five, a mutation: token-level (prefix, delete / duplicate / insert / swap tokens, delete a run, unbalance, token soups), byte-level (truncate, delete / insert / replace a character incl. '#', quotes, comment openers, non-ASCII, CR), numerals that do not fit in an int (first or last line), plus the corpus of inputs that crashed the pinned tree; thorough adds truncation at EVERY offset of 12 scripts. Observed under recover(): numscript.Parse, GetParsingErrors, ParseErrorsToString; the reference parser decides validity, the model of ShowOnSource predicts rendering. Non-trivial: the text is not an unmutated valid script; distinct by hash.",
-        "assumptions": ["PARTIAL: 'syntactically valid' is membership in the language of Numscript.g4 as decided by the reference parser coq/Model/Parser.v (compared with ANTLR on every input); ANTLR's generated code and error recovery are explored, not proved",
+        "assumptions": ["PARTIAL: 'syntactically valid' is membership in the language of the declarative grammar coq/Spec/Grammar.v (Numscript.g4, one constructor per alternative), decided by the reference parser coq/Model/Parser.v which is proved sound and complete for it; ANTLR's generated code and error recovery are compared with that verdict on every input, not proved",
                         "known finding F-D10: a NUMBER literal outside the int range is rejected; for inputs with that signature (detected with the implementation's own lexer) only the acceptance requirement is waived"],
         "trusted_base": ["modelled rather than verified: Numscript.g4 (coq/Model/Lexer.v, Parser.v), parser.go conversions, range.go ShowOnSource (coq/Model/Render.v)", "the ANTLR runtime and generated lexer/parser: exercised only"],
     },
